@@ -638,20 +638,24 @@ Qed.
 Lemma forallb_is_normal_map ns : forallb is_normal (map CNormal ns) = true.
 Proof. induction ns as [|n ns IH]; [reflexivity|]. cbn [map forallb is_normal]. exact IH. Qed.
 
+(* ---- the machine before the F23 repair (thru = true) on a destination without links *)
+
 (* an accepted entry is unpacked at dest/target/rest, nowhere else *)
-Lemma extract_entry_ok dest d te s rest :
-  nolinks d -> entry_check false te = 0 -> utf8_decode (te_raw te) = Some s ->
+Lemma extract_entry_ok lo dest d te s rest :
+  nolinks d -> entry_check lo te = 0 -> utf8_decode (te_raw te) = Some s ->
   components s = map CNormal (target_name :: rest) ->
-  extract_entry false dest d te =
+  extract_entry lo true dest d te =
   match place d (dest ++ target_name :: rest) (te_kind te) (te_data te) with
   | Some d' => XOk d'
   | None => XIoError d
   end.
 Proof.
   intros Hn Hc Hs Hcs. unfold extract_entry. rewrite Hc. cbn [N.eqb negb]. rewrite Hs.
+  cbn [negb andb].
   unfold dest_of. rewrite Hcs. rewrite (dest_of_comps_normals (target_name :: rest) dest).
   destruct (path_eqb (dest ++ target_name :: rest) dest) eqn:E.
   { apply path_eqb_eq in E. exfalso. exact (app_cons_neq _ _ _ E). }
+  unfold unpack_through.
   rewrite realpath_nolinks by exact Hn.
   rewrite removelast_app by discriminate.
   rewrite path_prefix_app. cbn [negb].
@@ -660,13 +664,13 @@ Proof.
   reflexivity.
 Qed.
 
-Lemma extract_entry_not_ok links_ok dest d e :
+Lemma extract_entry_not_ok links_ok thru dest d e :
   entry_ok links_ok e = false ->
-  extract_entry links_ok dest d e = XRejected (entry_check links_ok e) d.
+  extract_entry links_ok thru dest d e = XRejected (entry_check links_ok e) d.
 Proof. unfold entry_ok, extract_entry. intros ->. reflexivity. Qed.
 
-Lemma extract_entry_error_unchanged links_ok dest d e :
-  match extract_entry links_ok dest d e with
+Lemma extract_entry_error_unchanged links_ok thru dest d e :
+  match extract_entry links_ok thru dest d e with
   | XOk _ => True
   | XRejected _ d1 => d1 = d
   | XIoError d1 => d1 = d
@@ -674,15 +678,24 @@ Lemma extract_entry_error_unchanged links_ok dest d e :
 Proof.
   unfold extract_entry. destruct (negb (entry_check links_ok e =? 0)); [reflexivity|].
   destruct (utf8_decode (te_raw e)) as [s|]; [|reflexivity].
+  destruct (negb thru && link_on_path d dest (normal_names (components s))); [reflexivity|].
   destruct (dest_of dest s) as [q|]; [|exact I].
   destruct (path_eqb q dest); [exact I|].
-  destruct (realpath d (removelast q)) as [parent|]; [|reflexivity].
-  destruct (negb (path_prefix dest parent)); [reflexivity|].
-  destruct (place d (parent ++ [last q []]) (te_kind e) (te_data e)); [exact I | reflexivity].
+  destruct thru.
+  - unfold unpack_through.
+    destruct (realpath d (removelast q)) as [parent|]; [|reflexivity].
+    destruct (negb (path_prefix dest parent)); [reflexivity|].
+    destruct (place d (parent ++ [last q []]) (te_kind e) (te_data e)); [exact I | reflexivity].
+  - unfold unpack_checked.
+    destruct (realpath d (dest ++ removelast (normal_names (components s)))) as [parent|];
+      [|reflexivity].
+    destruct (negb (path_prefix dest parent)); [reflexivity|].
+    destruct (file_on_path d dest (removelast (normal_names (components s)))); [reflexivity|].
+    destruct (place _ _ (te_kind e) (te_data e)); [exact I | reflexivity].
 Qed.
 
 Lemma extract_entry_fixed dest d e d' :
-  nolinks d -> extract_entry false dest d e = XOk d' ->
+  nolinks d -> extract_entry false true dest d e = XOk d' ->
   d' = d \/ exists rest n, d' = write d (dest ++ target_name :: rest) n /\ (forall t, n <> NLink t).
 Proof.
   intros Hn H.
@@ -691,7 +704,7 @@ Proof.
   apply N.eqb_eq in E. pose proof E as E0.
   apply entry_check_zero in E as [s [Hs [Hok [Hl Hck]]]].
   destruct (path_ok_components s Hok) as [rest Hcs].
-  rewrite (extract_entry_ok dest d e s rest Hn E0 Hs Hcs) in H.
+  rewrite (extract_entry_ok false dest d e s rest Hn E0 Hs Hcs) in H.
   destruct Hl as [Hl|Hl]; [discriminate Hl|].
   unfold place in H.
   destruct (te_kind e) as [| |t|t]; try discriminate Hl;
@@ -700,16 +713,16 @@ Proof.
     intros t'; cbn [node_of]; discriminate.
 Qed.
 
-Theorem extract_confined dest : forall es d,
+Theorem extract_through_confined dest : forall es d,
   nolinks d ->
-  exists w, result_fs (extract false dest d es) = w ++ d
+  exists w, result_fs (extract false true dest d es) = w ++ d
             /\ Forall (fun x => path_prefix (dest ++ [target_name]) (fst x) = true) w
             /\ nolinks (w ++ d).
 Proof.
   induction es as [|e es IH]; intros d Hn.
   - exists []. cbn [extract result_fs app]. auto.
-  - cbn [extract]. pose proof (extract_entry_error_unchanged false dest d e) as Herr.
-    destruct (extract_entry false dest d e) as [d'|c d1|d1] eqn:E.
+  - cbn [extract]. pose proof (extract_entry_error_unchanged false true dest d e) as Herr.
+    destruct (extract_entry false true dest d e) as [d'|c d1|d1] eqn:E.
     + destruct (extract_entry_fixed dest d e d' Hn E) as [->|[rest [n [-> Hnl]]]].
       * apply IH. exact Hn.
       * destruct (IH (write d (dest ++ target_name :: rest) n)) as [w [Hw [Hall Hnl']]].
@@ -722,15 +735,278 @@ Proof.
     + subst d1. exists []. cbn [result_fs app]. auto.
 Qed.
 
-Theorem extract_stops_at_first_bad links_ok dest : forall es1 d e es2 d1,
-  extract links_ok dest d es1 = XOk d1 -> entry_ok links_ok e = false ->
-  extract links_ok dest d (es1 ++ e :: es2) = XRejected (entry_check links_ok e) d1.
+Theorem extract_stops_at_first_bad links_ok thru dest : forall es1 d e es2 d1,
+  extract links_ok thru dest d es1 = XOk d1 -> entry_ok links_ok e = false ->
+  extract links_ok thru dest d (es1 ++ e :: es2) = XRejected (entry_check links_ok e) d1.
 Proof.
   induction es1 as [|x es1 IH]; intros d e es2 d1 H Hbad.
   - cbn [extract] in H. inversion H; subst. cbn [app extract].
     rewrite extract_entry_not_ok by exact Hbad. reflexivity.
-  - cbn [app extract] in *. destruct (extract_entry links_ok dest d x); try discriminate H.
+  - cbn [app extract] in *. destruct (extract_entry links_ok thru dest d x); try discriminate H.
     apply IH; assumption.
+Qed.
+
+(* ---- the repaired machine (thru = false) on an ARBITRARY destination *)
+
+Lemma normal_names_map ns : normal_names (map CNormal ns) = ns.
+Proof. induction ns as [|n ns IH]; [reflexivity|]. cbn [map normal_names flat_map app]. f_equal. exact IH. Qed.
+
+Lemma link_on_path_app d : forall a cur b,
+  link_on_path d cur (a ++ b) = link_on_path d cur a || link_on_path d (cur ++ a) b.
+Proof.
+  induction a as [|n a IH]; intros cur b.
+  - cbn [app link_on_path orb]. rewrite app_nil_r. reflexivity.
+  - cbn [app link_on_path]. destruct (lookup d (cur ++ [n])) as [[x| |t]|]; try reflexivity;
+      rewrite IH, <- app_assoc; reflexivity.
+Qed.
+
+Lemma resolve_no_link d : forall ns cur f,
+  link_on_path d cur ns = false -> (length ns <= f)%nat ->
+  resolve f d cur (map CNormal ns) = Some (cur ++ ns).
+Proof.
+  induction ns as [|n ns IH]; intros cur f Hl Hf; cbn [map].
+  - destruct f; cbn [resolve]; rewrite app_nil_r; reflexivity.
+  - destruct f as [|f]; [cbn [length] in Hf; lia|]. cbn [resolve].
+    assert (Hf' : (length ns <= f)%nat) by (cbn [length] in Hf; lia).
+    cbn [link_on_path] in Hl.
+    destruct (lookup d (cur ++ [n])) as [[b| |t]|] eqn:E; try discriminate Hl;
+      rewrite IH by assumption; rewrite <- app_assoc; reflexivity.
+Qed.
+
+Lemma realpath_no_link d p : link_on_path d [] p = false -> realpath d p = Some p.
+Proof. intros H. unfold realpath. rewrite resolve_no_link; [reflexivity | exact H | lia]. Qed.
+
+Lemma link_on_path_removelast d cur ns :
+  link_on_path d cur ns = false -> link_on_path d cur (removelast ns) = false.
+Proof.
+  destruct ns as [|n ns]; [intros; reflexivity|]. intros H.
+  rewrite (app_removelast_last n (l := n :: ns)) in H by discriminate.
+  rewrite link_on_path_app in H. apply orb_false_iff in H. tauto.
+Qed.
+
+(* cur/pre for a non-empty prefix pre of ns *)
+Definition chain (cur : rpath) (ns : list name) (q : rpath) : Prop :=
+  exists pre r, pre <> [] /\ ns = pre ++ r /\ q = cur ++ pre.
+
+Lemma chain_cons cur n r q : chain cur (n :: r) q <-> q = cur ++ [n] \/ chain (cur ++ [n]) r q.
+Proof.
+  split.
+  - intros [pre [r' [Hne [Hns Hq]]]]. destruct pre as [|x pre]; [contradiction|].
+    cbn [app] in Hns. inversion Hns; subst x r.
+    destruct pre as [|y pre]; [left; exact Hq|].
+    right. exists (y :: pre), r'. split; [discriminate|]. split; [reflexivity|].
+    rewrite Hq, <- app_assoc. reflexivity.
+  - intros [->|[pre [r' [Hne [-> ->]]]]].
+    + exists [n], r. split; [discriminate|]. split; reflexivity.
+    + exists (n :: pre), r'. split; [discriminate|]. split; [reflexivity|].
+      rewrite <- app_assoc. reflexivity.
+Qed.
+
+Lemma chain_nil cur q : ~ chain cur [] q.
+Proof.
+  intros [pre [r [Hne [Hns _]]]]. destruct pre; [contradiction | discriminate].
+Qed.
+
+(* what ensure_dir_created adds: directories, on the chain, where nothing was *)
+Lemma mkdirs_writes : forall ns d cur,
+  exists w, mkdirs d cur ns = w ++ d
+            /\ Forall (fun x => snd x = NDir /\ chain cur ns (fst x) /\ lookup d (fst x) = None) w.
+Proof.
+  induction ns as [|n r IH]; intros d cur.
+  - exists []. split; [reflexivity | constructor].
+  - cbn [mkdirs]. destruct (lookup d (cur ++ [n])) as [x|] eqn:E.
+    + destruct (IH d (cur ++ [n])) as [w [Hw Hall]]. exists w. split; [exact Hw|].
+      eapply Forall_impl; [|exact Hall]. intros [q nd] [H1 [H2 H3]]. cbn [fst snd] in *.
+      split; [exact H1|]. split; [|exact H3]. apply chain_cons. right. exact H2.
+    + destruct (IH (write d (cur ++ [n]) NDir) (cur ++ [n])) as [w [Hw Hall]].
+      exists (w ++ [(cur ++ [n], NDir)]). rewrite <- app_assoc. split; [exact Hw|].
+      apply Forall_app. split.
+      * eapply Forall_impl; [|exact Hall]. intros [q nd] [H1 [H2 H3]]. cbn [fst snd] in *.
+        split; [exact H1|]. split; [apply chain_cons; right; exact H2|].
+        rewrite lookup_write in H3. destruct (path_eqb q (cur ++ [n])); [discriminate | exact H3].
+      * constructor; [|constructor]. cbn [fst snd]. split; [reflexivity|]. split; [|exact E].
+        apply chain_cons. left. reflexivity.
+Qed.
+
+Lemma lookup_app_notin w d q : ~ In q (map fst w) -> lookup (w ++ d) q = lookup d q.
+Proof.
+  induction w as [|[p n] w IH]; intros H; [reflexivity|]. cbn [app lookup].
+  cbn [map fst In] in H. destruct (path_eqb q p) eqn:E.
+  - apply path_eqb_eq in E. subst. exfalso. apply H. left. reflexivity.
+  - apply IH. tauto.
+Qed.
+
+Lemma lookup_app_some w d q n :
+  lookup (w ++ d) q = Some n -> In (q, n) w \/ lookup d q = Some n.
+Proof.
+  induction w as [|[p m] w IH]; intros H; [right; exact H|]. cbn [app lookup] in H.
+  destruct (path_eqb q p) eqn:E.
+  - apply path_eqb_eq in E. inversion H; subst. left. left. reflexivity.
+  - destruct (IH H) as [H1|H1]; [left; right; exact H1 | right; exact H1].
+Qed.
+
+Lemma mkdirs_keeps d cur ns q n : lookup d q = Some n -> lookup (mkdirs d cur ns) q = Some n.
+Proof.
+  intros H. destruct (mkdirs_writes ns d cur) as [w [-> Hall]].
+  rewrite lookup_app_notin; [exact H|]. intros Hin. apply in_map_iff in Hin as [[q' n'] [E Hin]].
+  cbn [fst] in E. subst q'. rewrite Forall_forall in Hall. destruct (Hall _ Hin) as [_ [_ H3]].
+  cbn [fst] in H3. congruence.
+Qed.
+
+Lemma mkdirs_new d cur ns q n :
+  lookup (mkdirs d cur ns) q = Some n -> lookup d q = Some n \/ (n = NDir /\ chain cur ns q).
+Proof.
+  destruct (mkdirs_writes ns d cur) as [w [-> Hall]]. intros H.
+  destruct (lookup_app_some _ _ _ _ H) as [Hin|H']; [|left; exact H'].
+  rewrite Forall_forall in Hall. destruct (Hall _ Hin) as [H1 [H2 _]]. cbn [fst snd] in *.
+  right. split; assumption.
+Qed.
+
+(* every path on the chain below dest/<target :: rest> lies below dest/target *)
+Lemma chain_under_target dest rest q :
+  chain dest (removelast (target_name :: rest)) q ->
+  path_prefix (dest ++ [target_name]) q = true.
+Proof.
+  intros [pre [r [Hne [Hns ->]]]]. destruct pre as [|x pre]; [contradiction|].
+  destruct rest as [|y rest]; [cbn [removelast] in Hns; discriminate Hns|].
+  change (removelast (target_name :: y :: rest)) with (target_name :: removelast (y :: rest)) in Hns.
+  cbn [app] in Hns. inversion Hns; subst x.
+  apply path_prefix_spec. exists pre. rewrite <- app_assoc. reflexivity.
+Qed.
+
+(* the repaired step: an accepted entry target/rest, no link on the way, dest canonical *)
+Lemma unpack_checked_ok dest d rest k data :
+  dest_canonical d dest = true -> link_on_path d dest (target_name :: rest) = false ->
+  unpack_checked dest d (target_name :: rest) k data =
+  if file_on_path d dest (removelast (target_name :: rest)) then XIoError d
+  else match place (mkdirs d dest (removelast (target_name :: rest)))
+                   (dest ++ target_name :: rest) k data with
+       | Some d' => XOk d'
+       | None => XIoError d
+       end.
+Proof.
+  intros Hc Hl. unfold unpack_checked.
+  rewrite realpath_no_link.
+  2:{ rewrite link_on_path_app. unfold dest_canonical in Hc. apply negb_true_iff in Hc.
+      rewrite Hc. cbn [orb app]. apply link_on_path_removelast. exact Hl. }
+  rewrite path_prefix_app. cbn [negb].
+  rewrite <- app_assoc, <- app_removelast_last by discriminate. reflexivity.
+Qed.
+
+Lemma extract_entry_checked_ok lo dest d te s rest :
+  dest_canonical d dest = true -> entry_check lo te = 0 -> utf8_decode (te_raw te) = Some s ->
+  components s = map CNormal (target_name :: rest) ->
+  extract_entry lo false dest d te =
+  if link_on_path d dest (target_name :: rest) then XIoError d
+  else if file_on_path d dest (removelast (target_name :: rest)) then XIoError d
+  else match place (mkdirs d dest (removelast (target_name :: rest)))
+                   (dest ++ target_name :: rest) (te_kind te) (te_data te) with
+       | Some d' => XOk d'
+       | None => XIoError d
+       end.
+Proof.
+  intros Hcan Hc Hs Hcs. unfold extract_entry. rewrite Hc. cbn [N.eqb negb]. rewrite Hs.
+  rewrite Hcs, normal_names_map. cbn [negb andb].
+  destruct (link_on_path d dest (target_name :: rest)) eqn:Hl; [reflexivity|].
+  unfold dest_of. rewrite Hcs. rewrite (dest_of_comps_normals (target_name :: rest) dest).
+  destruct (path_eqb (dest ++ target_name :: rest) dest) eqn:E.
+  { apply path_eqb_eq in E. exfalso. exact (app_cons_neq _ _ _ E). }
+  apply unpack_checked_ok; assumption.
+Qed.
+
+(* under the guard and with a canonical dest, the parent tar resolves IS the lexical parent: no
+   write of the repaired machine goes through a link *)
+Lemma guard_makes_lexical_physical d dest ns :
+  dest_canonical d dest = true -> link_on_path d dest ns = false ->
+  realpath d (dest ++ removelast ns) = Some (dest ++ removelast ns).
+Proof.
+  intros Hc Hl. apply realpath_no_link. rewrite link_on_path_app.
+  unfold dest_canonical in Hc. apply negb_true_iff in Hc. rewrite Hc. cbn [orb app].
+  apply link_on_path_removelast. exact Hl.
+Qed.
+
+Definition under_target_dir (dest : rpath) (x : rpath * node) : Prop :=
+  path_prefix (dest ++ [target_name]) (fst x) = true.
+
+Lemma extract_entry_checked_writes lo dest d e d' :
+  dest_canonical d dest = true -> extract_entry lo false dest d e = XOk d' ->
+  exists w, d' = w ++ d /\ Forall (under_target_dir dest) w.
+Proof.
+  intros Hcan H.
+  destruct (entry_check lo e =? 0) eqn:E.
+  2:{ unfold extract_entry in H. rewrite E in H. discriminate H. }
+  apply N.eqb_eq in E. pose proof E as E0.
+  apply entry_check_zero in E as [s [Hs [Hok _]]].
+  destruct (path_ok_components s Hok) as [rest Hcs].
+  rewrite (extract_entry_checked_ok lo dest d e s rest Hcan E0 Hs Hcs) in H.
+  destruct (link_on_path d dest (target_name :: rest)); [discriminate H|].
+  destruct (file_on_path d dest (removelast (target_name :: rest))); [discriminate H|].
+  destruct (mkdirs_writes (removelast (target_name :: rest)) d dest) as [w [Hw Hall]].
+  assert (Hunder : Forall (under_target_dir dest) w).
+  { eapply Forall_impl; [|exact Hall]. intros x [_ [Hch _]]. unfold under_target_dir.
+    eapply chain_under_target. exact Hch. }
+  rewrite Hw in H. unfold place in H.
+  assert (Hq : under_target_dir dest (dest ++ target_name :: rest, NDir)).
+  { unfold under_target_dir. cbn [fst]. apply path_prefix_spec. exists rest.
+    rewrite <- app_assoc. reflexivity. }
+  destruct (te_kind e) as [| |t|t];
+    destruct (lookup (w ++ d) (dest ++ target_name :: rest)) as [[b| |t']|]; try discriminate H;
+    inversion H; subst d'; try (exists w; split; [reflexivity | exact Hunder]);
+    eexists (_ :: w); (split; [reflexivity|]); constructor; try exact Hunder; exact Hq.
+Qed.
+
+Lemma link_on_path_ext d d' : forall ns cur,
+  (forall q, chain cur ns q -> lookup d' q = lookup d q) ->
+  link_on_path d' cur ns = link_on_path d cur ns.
+Proof.
+  induction ns as [|n r IH]; intros cur H; [reflexivity|]. cbn [link_on_path].
+  rewrite (H (cur ++ [n])) by (apply chain_cons; left; reflexivity).
+  rewrite (IH (cur ++ [n])); [reflexivity|]. intros q Hq. apply H. apply chain_cons. right. exact Hq.
+Qed.
+
+(* writes below dest/target leave the components of dest alone *)
+Lemma dest_canonical_app w d dest :
+  Forall (under_target_dir dest) w -> dest_canonical (w ++ d) dest = dest_canonical d dest.
+Proof.
+  intros Hall. unfold dest_canonical. f_equal. apply link_on_path_ext.
+  intros q [pre [r [Hne [Hd Hq]]]]. cbn [app] in Hq. subst q.
+  apply lookup_app_notin. intros Hin. apply in_map_iff in Hin as [[q n] [E Hin]].
+  cbn [fst] in E. subst q. rewrite Forall_forall in Hall. specialize (Hall _ Hin).
+  unfold under_target_dir in Hall. cbn [fst] in Hall. apply path_prefix_spec in Hall as [r' Hr'].
+  rewrite Hd in Hr'.
+  apply (f_equal (@length name)) in Hr'. rewrite !app_length in Hr'. cbn [length] in Hr'. lia.
+Qed.
+
+(* C19_confined_extraction: ANY initial file system (links anywhere below dest), ANY entry list,
+   with or without the F19 repair *)
+Theorem extract_checked_confined lo dest : forall es d,
+  dest_canonical d dest = true ->
+  exists w, result_fs (extract lo false dest d es) = w ++ d
+            /\ Forall (under_target_dir dest) w
+            /\ dest_canonical (w ++ d) dest = true.
+Proof.
+  induction es as [|e es IH]; intros d Hc.
+  - exists []. cbn [extract result_fs app]. split; [reflexivity|]. split; [constructor | exact Hc].
+  - cbn [extract]. pose proof (extract_entry_error_unchanged lo false dest d e) as Herr.
+    destruct (extract_entry lo false dest d e) as [d'|c d1|d1] eqn:E.
+    + destruct (extract_entry_checked_writes lo dest d e d' Hc E) as [w1 [-> Hw1]].
+      destruct (IH (w1 ++ d)) as [w [Hw [Hall Hc']]].
+      { rewrite dest_canonical_app by exact Hw1. exact Hc. }
+      exists (w ++ w1). rewrite <- app_assoc. split; [exact Hw|]. split; [|exact Hc'].
+      apply Forall_app. split; assumption.
+    + subst d1. exists []. cbn [result_fs app]. split; [reflexivity|]. split; [constructor | exact Hc].
+    + subst d1. exists []. cbn [result_fs app]. split; [reflexivity|]. split; [constructor | exact Hc].
+Qed.
+
+Theorem extract_to_confined lo ow dest es d :
+  dest_canonical d dest = true ->
+  exists w, result_fs (extract_to lo false ow dest d es) = w ++ d
+            /\ Forall (under_target_dir dest) w.
+Proof.
+  intros Hc. unfold extract_to.
+  destruct (negb ow && exists_follow_fs d (dest ++ [target_name])).
+  - exists []. split; [reflexivity | constructor].
+  - destruct (extract_checked_confined lo dest es d Hc) as [w [H1 [H2 _]]]. exists w. auto.
 Qed.
 
 (* ---- round trip of the archiver's own entry list *)
@@ -743,72 +1019,226 @@ Definition encodes (te : tentry) (e : entry) : Prop :=
 Definition archive_path (p : rpath) : Prop :=
   exists rest, p = target_name :: rest /\ Forall (fun n => normal_name n = true) rest.
 
-Lemma lookup_app_notin w d q : ~ In q (map fst w) -> lookup (w ++ d) q = lookup d q.
+
+(* a destination in which target/ does not exist (what nextest requires without overwrite) *)
+Definition fresh_target (d0 : fsys) (dest : rpath) : Prop :=
+  forall rel, lookup d0 (dest ++ target_name :: rel) = None.
+
+Definition proper_prefix (p q : rpath) : Prop := exists r, r <> [] /\ q = p ++ r.
+
+(* only a directory entry has entries below it (true of every listing of one file system) *)
+Definition tree_like (es : list entry) : Prop :=
+  forall p c q c', In (p, c) es -> In (q, c') es -> proper_prefix p q -> c = CDir.
+
+(* the state of the destination after the entries S: every entry holds its content, and below
+   dest/target there is nothing but the entries and the directories leading to them *)
+Definition rt_inv (dest : rpath) (S : list entry) (d : fsys) : Prop :=
+  dest_canonical d dest = true
+  /\ (forall p c, In (p, c) S -> lookup d (dest ++ p) = Some (node_of_content c))
+  /\ (forall rel n, lookup d (dest ++ target_name :: rel) = Some n ->
+        (exists c, In (target_name :: rel, c) S /\ n = node_of_content c)
+        \/ (n = NDir /\ exists p c, In (p, c) S /\ proper_prefix (target_name :: rel) p)).
+
+Lemma link_on_path_none d : forall ns cur,
+  (forall q t, chain cur ns q -> lookup d q <> Some (NLink t)) -> link_on_path d cur ns = false.
 Proof.
-  induction w as [|[p n] w IH]; intros H; [reflexivity|]. cbn [app lookup].
-  cbn [map fst In] in H. destruct (path_eqb q p) eqn:E.
-  - apply path_eqb_eq in E. subst. exfalso. apply H. left. reflexivity.
-  - apply IH. tauto.
+  induction ns as [|n r IH]; intros cur H; [reflexivity|]. cbn [link_on_path].
+  destruct (lookup d (cur ++ [n])) as [[b| |t]|] eqn:E;
+    try (apply IH; intros q t' Hq; apply H; apply chain_cons; right; exact Hq).
+  exfalso. apply (H (cur ++ [n]) t); [apply chain_cons; left; reflexivity | exact E].
 Qed.
 
-Lemma roundtrip_gen dest : forall tes es, Forall2 encodes tes es ->
-  forall d0, nolinks d0 -> NoDup (map fst es) ->
-  Forall (fun e => archive_path (fst e)) es ->
-  (forall e, In e es -> lookup d0 (dest ++ fst e) = None) ->
-  exists w, extract false dest d0 tes = XOk (w ++ d0)
-            /\ map fst w = rev (map (fun e => dest ++ fst e) es)
-            /\ forall p c, In (p, c) es -> lookup (w ++ d0) (dest ++ p) = Some (node_of_content c).
+Lemma file_on_path_none d : forall ns cur,
+  (forall q b, chain cur ns q -> lookup d q <> Some (NFile b)) -> file_on_path d cur ns = false.
 Proof.
-  induction 1 as [|te [p c] tes es Henc _ IH]; intros d0 Hn Hnd Hap Hfresh.
-  - exists []. cbn [extract app map rev]. split; [reflexivity|]. split; [reflexivity|].
-    intros p c [].
-  - destruct Henc as [Hraw [Hck [Hk Hdata]]]. cbn [fst snd] in *.
-    inversion Hap as [|? ? [rest [Hp Hrest]] Hap']; subst. cbn [fst] in *. subst p.
-    inversion Hnd as [|? ? Hnotin Hnd']; subst.
-    pose proof (components_render rest Hrest) as Hcs.
-    assert (Hchk : entry_check false te = 0).
-    { apply entry_check_zero. exists (render_rel (target_name :: rest)).
-      split; [exact Hraw|]. split.
-      - unfold path_ok, path_ok_target. rewrite Hcs. cbn [map]. rewrite str_eqb_refl.
-        cbn [andb forallb is_normal]. apply forallb_is_normal_map.
-      - split; [|exact Hck]. right. rewrite Hk. destruct c; reflexivity. }
-    set (q := dest ++ target_name :: rest).
-    assert (Hstep : extract_entry false dest d0 te = XOk (write d0 q (node_of_content c))).
-    { rewrite (extract_entry_ok dest d0 te _ rest Hn Hchk Hraw Hcs). fold q.
-      pose proof (Hfresh (target_name :: rest, c) (or_introl eq_refl)) as Hf0.
-      cbn [fst] in Hf0. fold q in Hf0. unfold place. rewrite Hf0.
-      rewrite Hk, Hdata. destruct c; reflexivity. }
-    destruct (IH (write d0 q (node_of_content c))) as [w [Hw [Hpaths Hlook]]].
-    + apply nolinks_write; [exact Hn|]. intros t. destruct c; discriminate.
-    + exact Hnd'.
-    + exact Hap'.
-    + intros e He. rewrite lookup_write. destruct (path_eqb (dest ++ fst e) q) eqn:E.
-      * apply path_eqb_eq in E. unfold q in E. apply app_inv_head in E.
-        exfalso. apply Hnotin. rewrite <- E. apply in_map. exact He.
-      * apply Hfresh. right. exact He.
-    + exists (w ++ [(q, node_of_content c)]). cbn [extract]. rewrite Hstep.
-      unfold write in Hw. rewrite <- app_assoc. cbn [app]. split; [exact Hw|]. split.
-      * rewrite map_app, Hpaths. cbn [map rev fst]. reflexivity.
-      * intros p' c' [H|H].
-        -- inversion H; subst p' c'. fold q.
-           rewrite lookup_app_notin.
-           ++ cbn [lookup]. rewrite path_eqb_refl. reflexivity.
-           ++ rewrite Hpaths. rewrite <- in_rev. rewrite in_map_iff. intros [e [E He]].
-              unfold q in E. apply app_inv_head in E. apply Hnotin. rewrite <- E.
-              apply in_map. exact He.
-        -- unfold write in Hlook. apply Hlook. exact H.
+  induction ns as [|n r IH]; intros cur H; [reflexivity|]. cbn [file_on_path].
+  destruct (lookup d (cur ++ [n])) as [[b| |t]|] eqn:E;
+    try (apply IH; intros q t' Hq; apply H; apply chain_cons; right; exact Hq).
+  exfalso. apply (H (cur ++ [n]) b); [apply chain_cons; left; reflexivity | exact E].
 Qed.
 
-Theorem roundtrip dest tes es :
+Lemma chain_removelast_proper cur ns q :
+  chain cur (removelast ns) q ->
+  exists pre r, pre <> [] /\ r <> [] /\ ns = pre ++ r /\ q = cur ++ pre.
+Proof.
+  intros [pre [r0 [Hne [Hrl Hq]]]].
+  destruct ns as [|n ns]; [destruct pre; [contradiction | discriminate Hrl]|].
+  exists pre, (r0 ++ [last (n :: ns) n]). split; [exact Hne|]. split.
+  - intros H. apply app_eq_nil in H as [_ H]. discriminate H.
+  - split; [|exact Hq]. rewrite app_assoc, <- Hrl. apply app_removelast_last. discriminate.
+Qed.
+
+Lemma app_self_neq {A} (l r : list A) : r <> [] -> l <> l ++ r.
+Proof.
+  intros Hr H. apply (f_equal (@length A)) in H. rewrite app_length in H.
+  destruct r; [contradiction | cbn [length] in H; lia].
+Qed.
+
+Lemma node_of_content_not_link c t : node_of_content c <> NLink t.
+Proof. destruct c; discriminate. Qed.
+
+Lemma rt_step lo dest S d te p c :
+  rt_inv dest S d -> archive_path p -> ~ In p (map fst S) ->
+  tree_like (S ++ [(p, c)]) -> encodes te (p, c) ->
+  exists d', extract_entry lo false dest d te = XOk d' /\ rt_inv dest (S ++ [(p, c)]) d'.
+Proof.
+  intros [Hcan [J1 J2]] [rest [Hp Hrest]] Hnotin Htl [Hraw [Hck [Hk Hdata]]].
+  cbn [fst snd] in *. subst p.
+  pose proof (components_render rest Hrest) as Hcs.
+  assert (Hchk : entry_check lo te = 0).
+  { apply entry_check_zero. exists (render_rel (target_name :: rest)).
+    split; [exact Hraw|]. split.
+    - unfold path_ok, path_ok_target. rewrite Hcs. cbn [map]. rewrite str_eqb_refl.
+      cbn [andb forallb is_normal]. apply forallb_is_normal_map.
+    - split; [|exact Hck]. right. rewrite Hk. destruct c; reflexivity. }
+  rewrite (extract_entry_checked_ok lo dest d te _ rest Hcan Hchk Hraw Hcs).
+  set (p := target_name :: rest) in *.
+  assert (Hl : link_on_path d dest p = false).
+  { apply link_on_path_none. intros q t [pre [r [Hne [Hpp ->]]]] H.
+    destruct pre as [|x rel]; [contradiction|]. unfold p in Hpp. cbn [app] in Hpp.
+    inversion Hpp; subst x.
+    destruct (J2 rel _ H) as [[c' [_ E]]|[E _]]; [|discriminate E].
+    symmetry in E. exact (node_of_content_not_link _ _ E). }
+  rewrite Hl.
+  assert (Hf : file_on_path d dest (removelast p) = false).
+  { apply file_on_path_none. intros q b Hq H.
+    destruct (chain_removelast_proper _ _ _ Hq) as [pre [r [Hne [Hr [Hpp ->]]]]].
+    destruct pre as [|x rel]; [contradiction|]. unfold p in Hpp. cbn [app] in Hpp.
+    inversion Hpp as [[Hx Hrest']]. subst x.
+    destruct (J2 rel _ H) as [[c' [Hin E]]|[E _]]; [|discriminate E].
+    assert (c' = CDir).
+    { apply (Htl (target_name :: rel) c' p c).
+      - apply in_or_app. left. exact Hin.
+      - apply in_or_app. right. left. reflexivity.
+      - exists r. split; [exact Hr|]. unfold p. rewrite Hrest'. reflexivity. }
+    subst c'. discriminate E. }
+  rewrite Hf.
+  destruct (mkdirs_writes (removelast p) d dest) as [w1 [Hw1 Hall1]].
+  assert (Hunder1 : Forall (under_target_dir dest) w1).
+  { eapply Forall_impl; [|exact Hall1]. intros x [_ [Hch _]]. unfold under_target_dir.
+    eapply chain_under_target. exact Hch. }
+  (* what is at dest/p after the parents were made *)
+  assert (Hnew : forall q n, lookup (mkdirs d dest (removelast p)) q = Some n ->
+                 lookup d q = Some n
+                 \/ (n = NDir /\ exists rel r, r <> [] /\ q = dest ++ target_name :: rel
+                                               /\ p = (target_name :: rel) ++ r)).
+  { intros q n H. destruct (mkdirs_new _ _ _ _ _ H) as [H'|[-> Hch]]; [left; exact H'|].
+    right. split; [reflexivity|].
+    destruct (chain_removelast_proper _ _ _ Hch) as [pre [r [Hne [Hr [Hpp ->]]]]].
+    destruct pre as [|x rel]; [contradiction|]. pose proof Hpp as Hpp'. unfold p in Hpp'.
+    cbn [app] in Hpp'. inversion Hpp'; subst x.
+    exists rel, r. split; [exact Hr|]. split; [reflexivity | exact Hpp]. }
+  assert (Hplace : exists d', place (mkdirs d dest (removelast p)) (dest ++ p) (te_kind te) (te_data te)
+                              = Some d'
+                   /\ lookup d' (dest ++ p) = Some (node_of_content c)
+                   /\ (forall q, q <> dest ++ p -> lookup d' q = lookup (mkdirs d dest (removelast p)) q)
+                   /\ exists w, d' = w ++ d /\ Forall (under_target_dir dest) w).
+  { destruct (lookup d (dest ++ p)) as [n|] eqn:E.
+    - destruct (J2 rest n E) as [[c' [Hin _]]|[-> [p2 [c2 [Hin2 Hpp]]]]].
+      + exfalso. apply Hnotin. change p with (fst (p, c')). apply in_map. exact Hin.
+      + assert (c = CDir).
+        { apply (Htl p c p2 c2).
+          - apply in_or_app. right. left. reflexivity.
+          - apply in_or_app. left. exact Hin2.
+          - exact Hpp. }
+        subst c. exists (mkdirs d dest (removelast p)).
+        pose proof (mkdirs_keeps d dest (removelast p) _ _ E) as E1.
+        unfold place. rewrite Hk, E1. split; [reflexivity|]. split; [reflexivity|].
+        split; [reflexivity|]. exists w1. split; [exact Hw1 | exact Hunder1].
+    - assert (E1 : lookup (mkdirs d dest (removelast p)) (dest ++ p) = None).
+      { destruct (lookup (mkdirs d dest (removelast p)) (dest ++ p)) as [n|] eqn:E1; [|reflexivity].
+        destruct (Hnew _ _ E1) as [H|[_ [rel [r [Hr [Hq Hpp]]]]]]; [congruence|].
+        apply app_inv_head in Hq. exfalso. rewrite Hq in Hpp.
+        exact (app_self_neq _ _ Hr Hpp). }
+      exists (write (mkdirs d dest (removelast p)) (dest ++ p) (node_of_content c)).
+      split.
+      + unfold place. rewrite E1, Hk, Hdata. destruct c; reflexivity.
+      + split; [rewrite lookup_write, path_eqb_refl; reflexivity|]. split.
+        * intros q Hq. rewrite lookup_write. apply path_eqb_neq in Hq. rewrite Hq. reflexivity.
+        * exists ((dest ++ p, node_of_content c) :: w1). unfold write. rewrite Hw1.
+          split; [reflexivity|]. constructor; [|exact Hunder1].
+          unfold under_target_dir. cbn [fst]. apply path_prefix_spec. exists rest. unfold p.
+          rewrite <- app_assoc. reflexivity. }
+  destruct Hplace as [d' [Hpl [Hat [Hoth [w [Hw Hunder]]]]]]. rewrite Hpl.
+  exists d'. split; [reflexivity|]. split; [|split].
+  - rewrite Hw, dest_canonical_app by exact Hunder. exact Hcan.
+  - intros p' c' Hin. apply in_app_or in Hin as [Hin|[Hin|[]]].
+    + assert (Hne : dest ++ p' <> dest ++ p).
+      { intros H. apply app_inv_head in H. apply Hnotin. rewrite <- H.
+        change p' with (fst (p', c')). apply in_map. exact Hin. }
+      rewrite (Hoth _ Hne). apply mkdirs_keeps. apply J1. exact Hin.
+    + inversion Hin; subst p' c'. exact Hat.
+  - intros rel n H. destruct (path_eqb (dest ++ target_name :: rel) (dest ++ p)) eqn:E.
+    + apply path_eqb_eq in E. rewrite E, Hat in H. inversion H; subst n.
+      apply app_inv_head in E. left. exists c. split; [|reflexivity].
+      apply in_or_app. right. left. rewrite E. reflexivity.
+    + apply path_eqb_neq in E. rewrite (Hoth _ E) in H.
+      destruct (Hnew _ _ H) as [H'|[-> [rel' [r [Hr [Hq Hpp]]]]]].
+      * destruct (J2 rel n H') as [[c' [Hin ->]]|[-> [p2 [c2 [Hin Hpp]]]]].
+        -- left. exists c'. split; [apply in_or_app; left; exact Hin | reflexivity].
+        -- right. split; [reflexivity|]. exists p2, c2.
+           split; [apply in_or_app; left; exact Hin | exact Hpp].
+      * right. split; [reflexivity|]. exists p, c. split; [apply in_or_app; right; left; reflexivity|].
+        apply app_inv_head in Hq. exists r. split; [exact Hr|]. rewrite Hq. exact Hpp.
+Qed.
+
+Lemma roundtrip_gen lo dest : forall tes rest, Forall2 encodes tes rest ->
+  forall S d, rt_inv dest S d -> NoDup (map fst (S ++ rest)) ->
+  Forall (fun e => archive_path (fst e)) rest -> tree_like (S ++ rest) ->
+  exists d', extract lo false dest d tes = XOk d' /\ rt_inv dest (S ++ rest) d'.
+Proof.
+  induction 1 as [|te [p c] tes rest Henc _ IH]; intros S d Hinv Hnd Hap Htl.
+  - exists d. cbn [extract]. rewrite app_nil_r. auto.
+  - inversion Hap as [|? ? Hp Hap']; subst. cbn [fst] in Hp.
+    assert (Hassoc : @app entry S ((p, c) :: rest) = @app entry (@app entry S [(p, c)]) rest)
+      by (rewrite <- app_assoc; reflexivity).
+    destruct (rt_step lo dest S d te p c Hinv Hp) as [d1 [Hstep Hinv1]].
+    + rewrite map_app in Hnd. cbn [map fst] in Hnd. apply NoDup_remove_2 in Hnd.
+      intros H. apply Hnd. apply in_or_app. left. exact H.
+    + intros p1 c1 q1 c1' H1 H2. apply (Htl p1 c1 q1 c1').
+      * apply in_app_or in H1 as [H1|[H1|[]]]; apply in_or_app;
+          [left; exact H1 | right; left; exact H1].
+      * apply in_app_or in H2 as [H2|[H2|[]]]; apply in_or_app;
+          [left; exact H2 | right; left; exact H2].
+    + exact Henc.
+    + destruct (IH (S ++ [(p, c)]) d1 Hinv1) as [d' [Hx Hinv']].
+      * rewrite <- Hassoc. exact Hnd.
+      * exact Hap'.
+      * rewrite <- Hassoc. exact Htl.
+      * exists d'. cbn [extract]. rewrite Hstep. split; [exact Hx|].
+        refine (eq_ind _ (fun l => rt_inv dest l d') Hinv' _ _).
+        rewrite <- app_assoc. reflexivity.
+Qed.
+
+(* C19_roundtrip_model: extracting (with the repaired machine, with or without overwrite) an entry
+   list without duplicate paths, all of the form target/<normal names>, tree-like, into ANY
+   destination in which target/ does not exist: every entry holds its content, nothing else appears
+   below dest/target but the directories leading to the entries, nothing changes elsewhere *)
+Theorem roundtrip lo ow dest tes es d0 :
   Forall2 encodes tes es -> NoDup (map fst es) -> Forall (fun e => archive_path (fst e)) es ->
-  exists d, extract false dest [] tes = XOk d
-            /\ map fst d = rev (map (fun e => dest ++ fst e) es)
-            /\ forall p c, In (p, c) es -> lookup d (dest ++ p) = Some (node_of_content c).
+  tree_like es -> dest_canonical d0 dest = true -> fresh_target d0 dest ->
+  exists d, extract_to lo false ow dest d0 tes = XOk d
+            /\ (forall p c, In (p, c) es -> lookup d (dest ++ p) = Some (node_of_content c))
+            /\ (forall rel n, lookup d (dest ++ target_name :: rel) = Some n ->
+                  (exists c, In (target_name :: rel, c) es /\ n = node_of_content c)
+                  \/ (n = NDir /\ exists p c, In (p, c) es /\ proper_prefix (target_name :: rel) p))
+            /\ (forall q, path_prefix (dest ++ [target_name]) q = false -> lookup d q = lookup d0 q).
 Proof.
-  intros H Hnd Hap.
-  destruct (roundtrip_gen dest tes es H [] ) as [w [Hw [Hp Hl]]]; auto.
-  - intros p t. discriminate.
-  - exists w. rewrite app_nil_r in *. auto.
+  intros Henc Hnd Hap Htl Hcan Hfresh.
+  assert (Hex : exists_follow_fs d0 (dest ++ [target_name]) = false).
+  { unfold exists_follow_fs. rewrite realpath_no_link.
+    - rewrite (Hfresh []). reflexivity.
+    - rewrite link_on_path_app. unfold dest_canonical in Hcan. apply negb_true_iff in Hcan.
+      rewrite Hcan. cbn [orb app link_on_path]. rewrite (Hfresh []). reflexivity. }
+  unfold extract_to. rewrite Hex, andb_false_r.
+  destruct (roundtrip_gen lo dest tes es Henc [] d0) as [d [Hx [_ [J1 J2]]]]; auto.
+  - split; [exact Hcan|]. split; [intros p c []|]. intros rel n H. rewrite Hfresh in H. discriminate H.
+  - exists d. split; [exact Hx|]. split; [exact J1|]. split; [exact J2|].
+    intros q Hq. destruct (extract_checked_confined lo dest tes d0 Hcan) as [w [Hw [Hall _]]].
+    rewrite Hx in Hw. cbn [result_fs] in Hw. subst d. apply lookup_app_notin.
+    intros Hin. apply in_map_iff in Hin as [[q' n'] [E Hin]]. cbn [fst] in E. subst q'.
+    rewrite Forall_forall in Hall. specialize (Hall _ Hin). unfold under_target_dir in Hall.
+    cbn [fst] in Hall. congruence.
 Qed.
 
 (* ================================================================== atomic write *)
@@ -985,27 +1415,38 @@ Proof.
   destruct (utf8_decode (te_raw e)); reflexivity.
 Qed.
 
-Lemma extract_links_irrelevant dest : forall es d,
-  has_link es = false -> extract true dest d es = extract false dest d es.
+Lemma extract_links_irrelevant thru dest : forall es d,
+  has_link es = false -> extract true thru dest d es = extract false thru dest d es.
 Proof.
   induction es as [|e es IH]; intros d H; [reflexivity|].
   cbn [has_link existsb] in H. apply orb_false_iff in H as [H1 H2].
-  cbn [extract]. unfold extract_entry. rewrite (entry_check_links_irrelevant e H1).
-  destruct (negb (entry_check false e =? 0)); [reflexivity|].
-  destruct (utf8_decode (te_raw e)) as [s|]; [|reflexivity].
-  destruct (dest_of dest s) as [q|]; [|apply IH; exact H2].
-  destruct (path_eqb q dest); [apply IH; exact H2|].
-  destruct (realpath d (removelast q)) as [parent|]; [|reflexivity].
-  destruct (negb (path_prefix dest parent)); [reflexivity|].
-  destruct (place d (parent ++ [last q []]) (te_kind e) (te_data e)); [|reflexivity].
-  apply IH. exact H2.
+  cbn [extract].
+  assert (E : extract_entry true thru dest d e = extract_entry false thru dest d e).
+  { unfold extract_entry. rewrite (entry_check_links_irrelevant e H1). reflexivity. }
+  rewrite E. destruct (extract_entry false thru dest d e); try reflexivity. apply IH. exact H2.
 Qed.
 
-Theorem extract_confined_outside_known dest es d :
-  has_link es = false -> nolinks d ->
-  exists w, result_fs (extract true dest d es) = w ++ d
+(* ---- F19 / F23: the machine before both repairs (links accepted, links followed) is confined
+   outside the two classes "the archive contains a link entry" and "the destination contains a
+   link" *)
+Definition fs_has_link (d : fsys) : bool :=
+  existsb (fun x => match snd x with NLink _ => true | _ => false end) d.
+
+Lemma fs_has_link_nolinks d : fs_has_link d = false -> nolinks d.
+Proof.
+  induction d as [|[q n] d IH]; intros H p t; cbn [lookup]; [discriminate|].
+  cbn [fs_has_link existsb snd] in H. apply orb_false_iff in H as [H1 H2].
+  destruct (path_eqb p q); [|apply IH; exact H2].
+  intros E. inversion E; subst n. discriminate H1.
+Qed.
+
+Theorem extract_confined_outside_known lo dest es d :
+  (lo = true -> has_link es = false) -> fs_has_link d = false ->
+  exists w, result_fs (extract lo true dest d es) = w ++ d
             /\ Forall (fun x => path_prefix (dest ++ [target_name]) (fst x) = true) w
             /\ nolinks (w ++ d).
 Proof.
-  intros H Hn. rewrite extract_links_irrelevant by exact H. apply extract_confined. exact Hn.
+  intros H Hn. apply fs_has_link_nolinks in Hn. destruct lo.
+  - rewrite extract_links_irrelevant by (apply H; reflexivity). apply extract_through_confined. exact Hn.
+  - apply extract_through_confined. exact Hn.
 Qed.
